@@ -179,6 +179,27 @@ class SeriesVal:
         core.register_model_var(name, proj)
         return s
 
+    # ---- attribute protocol of a Series: what the class defines, and - through Series.__getattr__ - every index label
+    def _has_label_named(self, name):
+        cache = self.space.__dict__.setdefault("labels_named", {})
+        if name not in cache:
+            cache[name] = SBool(z3.Bool(cur().fresh_name(f"{self.space.name}_has_a_label_named_{name}")))
+        return cache[name]
+
+    def pyvc_hasattr(self, name):
+        import pandas as pd
+
+        return True if hasattr(pd.Series, name) or hasattr(type(self), name) else self._has_label_named(name)
+
+    def pyvc_missing_attr(self, I, name):
+        import pandas as pd
+
+        if name.startswith("_") or hasattr(pd.Series, name):
+            raise Unsupported(f"theory value SeriesVal has no model for .{name}")
+        if I.truth(self._has_label_named(name), f"an index label is {name!r}"):
+            return SAny(name=f"series[{name!r}]")
+        I.raise_py(AttributeError, f"'Series' object has no attribute '{name}'")
+
     def derive(self, at=None, null=None, sel=None, kind=None, name="__same__"):
         # views / same-kind derivations keep the dtype OBJECT (asking its class twice gives one answer)
         dt = self.dtype if kind in (None, self.kind) else None
@@ -1082,6 +1103,21 @@ class FrameVal:
 
     def label(self, i):
         return self.space.label_fn(i)
+
+    # ---- attribute protocol of a DataFrame: what the class defines, and - through DataFrame.__getattr__ - every column label
+    def pyvc_hasattr(self, name):
+        import pandas as pd
+
+        return True if hasattr(pd.DataFrame, name) else self.has_col(name)
+
+    def pyvc_missing_attr(self, I, name):
+        import pandas as pd
+
+        if name.startswith("_") or hasattr(pd.DataFrame, name):
+            raise Unsupported(f"theory value FrameVal has no model for .{name}")
+        if I.truth(self.has_col(name), f"a column is named {name!r}"):
+            return self.pyvc_getitem(I, name)
+        I.raise_py(AttributeError, f"'DataFrame' object has no attribute '{name}'")
 
     def derive(self, sel=None):
         f = FrameVal(self.space, self.col_fn, self.has_col, sel or self._sel, self.name)
